@@ -92,7 +92,7 @@ func vdrCase(c *Ctx, focus string) {
 	mode := []string{"rolling", "post", "strict"}[c.Plan.Draw(3)]
 	linked := c.Plan.Draw(4) == 0 && os.Getenv("VERIF_NOLINK") == ""
 	cfg := &RunCfg{Prog: prog, LinkedRoot: linked, CanonicalPaths: linked, FCfg: &FCfg{MaxLen: 1 + c.Plan.Draw(3), MaxChunks: c.Plan.Draw(4), Salt: "vdr", AllowNil: c.Plan.Draw(3) == 0, PathStrings: c.Plan.Draw(3) == 0},
-		MaxSteps: 80000, ExtraFiles: true, LinkDirs: c.Plan.Draw(3) == 0, Companions: c.Plan.Draw(2) == 0, DirOutputs: c.Plan.Draw(3) == 0}
+		MaxSteps: 80000, ExtraFiles: true, SubDirs: c.Plan.Draw(3) == 0, LinkDirs: c.Plan.Draw(3) == 0, Companions: c.Plan.Draw(2) == 0, DirOutputs: c.Plan.Draw(3) == 0}
 	cfg.Flags = append(baseFlags(c.Plan), "--vdrmode="+mode)
 	swarmSched(c.Plan, cfg)
 	// the detached cleanup goroutines are "aux" tasks: vary their priority strongly
